@@ -368,6 +368,12 @@ pub mod client {
         pub fn project(&mut self) -> (r: ResponseFutureProj<'_, F>) ensures *r.inner.p == old(self).inner, *final(r.inner.p) == final(self).inner { unimplemented!() }
     }
 ''')
+    u.item(CL, 'struct', 'GrpcWebClientLayer')
+    u.fn(CL, 'new', within='impl<S> GrpcWebClientService<S>', header='impl<S> GrpcWebClientService<S> {', close=True, props=['C17'], display='client::GrpcWebClientService::new',
+         ensures=[Clause('CN1_wraps_this_transport', 'r.inner == inner')])
+    u.fn(CL, 'layer', within='impl<S> Layer<S> for GrpcWebClientLayer', header='impl GrpcWebClientLayer {', close=True, props=['C17'], display='client::GrpcWebClientLayer::layer',
+         sig_edits=[lambda t: t.sub_code('R9', r'Self::Service', 'GrpcWebClientService<S>'), lambda t: t.sub_code('R9', r'fn layer\(', 'fn layer<S>(')],
+         ensures=[Clause('CL1_the_layer_wraps_the_transport_in_the_grpc_web_client_service', 'r.inner == inner')])
     u.fn(CL, 'call', within='impl<S, B1, B2> Service<Request<B1>> for GrpcWebClientService<S>', header='impl<S> GrpcWebClientService<S> {', close=True, props=['C17'],
          display='client::GrpcWebClientService::call',
          sig_edits=[lambda t: t.sub_code('R9', r'Self::Future', 'ResponseFuture<S::Future>'),
